@@ -15,91 +15,95 @@ def run(index, rep, tier):
     ps = index.function(PM + ".parsimony_score")
 
     # ---- R16.1
-    cache_first = []
-    for f in index.functions_in_module(PM):
-        for t in walk_no_nested(f.node):
-            if isinstance(t, ast.Try):
-                ret_attr = any(isinstance(s, ast.Return) and isinstance(s.value, ast.Call) and call_name(s.value) == "getattr" for s in t.body)
-                falls_back = any(any(isinstance(x, ast.Subscript) and "state_sets_map" in norm(x.value) for x in ast.walk(h)) for h in t.handlers)
-                if ret_attr and falls_back:
-                    cache_first.append(f)
-    rep.note("cache-first getters in parsimony: %s" % [f.name for f in cache_first])
-    getters = {f.name for f in cache_first}
-    # lambdas in fitch_down_pass that wrap a cache-first getter
-    wrapped = set()
-    for n in walk_no_nested(fd.node):
-        if isinstance(n, ast.Assign) and isinstance(n.value, ast.Lambda) and any(isinstance(c, ast.Call) and call_name(c) in getters for c in ast.walk(n.value)):
-            wrapped.add(norm(n.targets[0]))
-    child_vars = {norm(n.targets[0]) for n in ast.walk(fd.node) if isinstance(n, ast.Assign) and isinstance(n.value, (ast.Call, ast.Attribute))
-                  and ("child_nodes" in norm(n.value))}
-    leaf_ifs = [i for i in ast.walk(fd.node) if isinstance(i, ast.If) and (
-        (isinstance(i.test, ast.UnaryOp) and isinstance(i.test.op, ast.Not) and (norm(i.test.operand) in child_vars or "child_nodes" in norm(i.test.operand)))
-        or (isinstance(i.test, ast.Call) and call_name(i.test) == "is_leaf"))]
-    if not leaf_ifs:
-        raise AnalysisError("R16.1: leaf branch of fitch_down_pass not recognised")
-    for li in leaf_ifs:
-        reads = [c for s in li.body for c in ast.walk(s) if isinstance(c, ast.Call) and (call_name(c) in wrapped or call_name(c) in getters)]
-        refresh = [x for s in li.body for x in ast.walk(s) if isinstance(x, ast.Subscript) and norm(x.value) == "taxon_state_sets_map"]
-        ok = True
-        why = ""
-        if reads and cache_first:
-            first_read = min(r.lineno for r in reads)
-            before = [x for x in refresh if x.lineno < first_read or (x.lineno == first_read and False)]
-            ok = bool(before)
-            why = "the leaf branch reads the node's state sets through the cache-first getter `%s` without first refreshing them from taxon_state_sets_map" % sorted(wrapped | getters)[0]
-            if ok:
-                # the refresh may be guarded only by `map is not None` / attr-name tests
-                pm = parent_map(li)
-                for x in before:
-                    p = pm.get(x)
-                    while p is not None and p is not li:
-                        if isinstance(p, ast.If):
-                            nm = names_in(p.test)
-                            if not nm <= {"taxon_state_sets_map", "state_sets_attr_name"}:
-                                ok = False
-                                why = "the refresh from the map is conditional on `%s`" % norm(p.test)
-                        p = pm.get(p)
-        rep.check(ok, "R16.1", fd.qualname, "leaf state sets served from a stale attribute", fn_where(fd, li), "fitch_down_pass: leaves take their state sets from this call's taxon_state_sets_map",
-                  "fitch_down_pass: %s. A tree scored once keeps the first matrix's leaf sets as node attributes, so scoring it again with a different matrix silently returns the first score" % why)
+    with rep.section("R16.1"):
+        cache_first = []
+        for f in index.functions_in_module(PM):
+            for t in walk_no_nested(f.node):
+                if isinstance(t, ast.Try):
+                    ret_attr = any(isinstance(s, ast.Return) and isinstance(s.value, ast.Call) and call_name(s.value) == "getattr" for s in t.body)
+                    falls_back = any(any(isinstance(x, ast.Subscript) and "state_sets_map" in norm(x.value) for x in ast.walk(h)) for h in t.handlers)
+                    if ret_attr and falls_back:
+                        cache_first.append(f)
+        rep.note("cache-first getters in parsimony: %s" % [f.name for f in cache_first])
+        getters = {f.name for f in cache_first}
+        # lambdas in fitch_down_pass that wrap a cache-first getter
+        wrapped = set()
+        for n in walk_no_nested(fd.node):
+            if isinstance(n, ast.Assign) and isinstance(n.value, ast.Lambda) and any(isinstance(c, ast.Call) and call_name(c) in getters for c in ast.walk(n.value)):
+                wrapped.add(norm(n.targets[0]))
+        child_vars = {norm(n.targets[0]) for n in ast.walk(fd.node) if isinstance(n, ast.Assign) and isinstance(n.value, (ast.Call, ast.Attribute))
+                      and ("child_nodes" in norm(n.value))}
+        leaf_ifs = [i for i in ast.walk(fd.node) if isinstance(i, ast.If) and (
+            (isinstance(i.test, ast.UnaryOp) and isinstance(i.test.op, ast.Not) and (norm(i.test.operand) in child_vars or "child_nodes" in norm(i.test.operand)))
+            or (isinstance(i.test, ast.Call) and call_name(i.test) == "is_leaf"))]
+        if not leaf_ifs:
+            raise AnalysisError("R16.1: leaf branch of fitch_down_pass not recognised")
+        for li in leaf_ifs:
+            reads = [c for s in li.body for c in ast.walk(s) if isinstance(c, ast.Call) and (call_name(c) in wrapped or call_name(c) in getters)]
+            refresh = [x for s in li.body for x in ast.walk(s) if isinstance(x, ast.Subscript) and norm(x.value) == "taxon_state_sets_map"]
+            ok = True
+            why = ""
+            if reads and cache_first:
+                first_read = min(r.lineno for r in reads)
+                before = [x for x in refresh if x.lineno < first_read or (x.lineno == first_read and False)]
+                ok = bool(before)
+                why = "the leaf branch reads the node's state sets through the cache-first getter `%s` without first refreshing them from taxon_state_sets_map" % sorted(wrapped | getters)[0]
+                if ok:
+                    # the refresh may be guarded only by `map is not None` / attr-name tests
+                    pm = parent_map(li)
+                    for x in before:
+                        p = pm.get(x)
+                        while p is not None and p is not li:
+                            if isinstance(p, ast.If):
+                                nm = names_in(p.test)
+                                if not nm <= {"taxon_state_sets_map", "state_sets_attr_name"}:
+                                    ok = False
+                                    why = "the refresh from the map is conditional on `%s`" % norm(p.test)
+                            p = pm.get(p)
+            rep.check(ok, "R16.1", fd.qualname, "leaf state sets served from a stale attribute", fn_where(fd, li), "fitch_down_pass: leaves take their state sets from this call's taxon_state_sets_map",
+                      "fitch_down_pass: %s. A tree scored once keeps the first matrix's leaf sets as node attributes, so scoring it again with a different matrix silently returns the first score" % why)
 
     # ---- R16.2
-    cfg = cfg_of(ps)
-    guards = find_namespace_guards(cfg)
-    gids = {g.id for g, _ in guards}
-    work = [n for n in cfg.nodes if any(call_name(c) in ("taxon_state_sets_map", "fitch_down_pass", "postorder_node_iter") for c in node_calls(n))]
-    ok = bool(guards) and bool(work) and all(cfg.dominated_by(w, lambda n: n.id in gids) for w in work)
-    rep.check(ok, "R16.2", ps.qualname, "namespace guard", fn_where(ps), "parsimony_score: namespace identity test -> raise dominates %d computing calls" % len(work),
-              "parsimony_score computes state sets / scores without first refusing a tree and matrix over different namespaces")
+    with rep.section("R16.2"):
+        cfg = cfg_of(ps)
+        guards = find_namespace_guards(cfg)
+        gids = {g.id for g, _ in guards}
+        work = [n for n in cfg.nodes if any(call_name(c) in ("taxon_state_sets_map", "fitch_down_pass", "postorder_node_iter") for c in node_calls(n))]
+        ok = bool(guards) and bool(work) and all(cfg.dominated_by(w, lambda n: n.id in gids) for w in work)
+        rep.check(ok, "R16.2", ps.qualname, "namespace guard", fn_where(ps), "parsimony_score: namespace identity test -> raise dominates %d computing calls" % len(work),
+                  "parsimony_score computes state sets / scores without first refusing a tree and matrix over different namespaces")
 
     # ---- R16.3
-    for f, args in ((ps, ["chars", "weights", "tree"]), (fd, ["weights", "taxon_state_sets_map"])):
-        bad = writes_rooted_at(f, set(args))
-        rep.check(not bad, "R16.3", f.qualname, "writes through arguments: %s" % [norm(b)[:40] for b in bad], fn_where(f, bad[0] if bad else None), "%s never stores to / mutates %s" % (f.name, args),
-                  "%s writes through its argument (`%s`): scoring must leave the matrix, the weights and the state-set map unchanged" % (f.qualname, norm(bad[0])[:60] if bad else ""))
-    asserts = [n for n in walk_no_nested(fd.node) if isinstance(n, ast.Assert) and "score_by_character_list" in norm(n.test) and "== 0" in norm(n.test)]
-    rep.check(bool(asserts), "R16.3", fd.qualname, "out-parameter asserted empty", fn_where(fd), "score_by_character_list is asserted empty on entry", "fitch_down_pass no longer asserts that score_by_character_list is empty on entry: stale per-character scores are added to")
+    with rep.section("R16.3"):
+        for f, args in ((ps, ["chars", "weights", "tree"]), (fd, ["weights", "taxon_state_sets_map"])):
+            bad = writes_rooted_at(f, set(args))
+            rep.check(not bad, "R16.3", f.qualname, "writes through arguments: %s" % [norm(b)[:40] for b in bad], fn_where(f, bad[0] if bad else None), "%s never stores to / mutates %s" % (f.name, args),
+                      "%s writes through its argument (`%s`): scoring must leave the matrix, the weights and the state-set map unchanged" % (f.qualname, norm(bad[0])[:60] if bad else ""))
+        asserts = [n for n in walk_no_nested(fd.node) if isinstance(n, ast.Assert) and "score_by_character_list" in norm(n.test) and "== 0" in norm(n.test)]
+        rep.check(bool(asserts), "R16.3", fd.qualname, "out-parameter asserted empty", fn_where(fd), "score_by_character_list is asserted empty on entry", "fitch_down_pass no longer asserts that score_by_character_list is empty on entry: stale per-character scores are added to")
 
     # ---- R16.4
-    frets = [norm(n.value) for n in walk_no_nested(fd.node) if isinstance(n, ast.Return) and n.value is not None]
-    scv = frets[-1] if frets else "score"
-    incs = [n for n in ast.walk(fd.node) if isinstance(n, ast.AugAssign) and norm(n.target) == scv and isinstance(n.op, ast.Add)]
-    if not incs:
-        raise AnalysisError("R16.4: total-score increment not found")
-    pm = parent_map(fd.node)
-    for inc in incs:
-        blk = pm.get(inc)
-        body = getattr(blk, "body", []) if inc in getattr(blk, "body", []) else getattr(blk, "orelse", [])
-        paired = False
-        for s in body:
-            for x in ast.walk(s):
-                if isinstance(x, ast.AugAssign) and norm(x.target).startswith("score_by_character_list[") and isinstance(x.op, ast.Add) and norm(x.value) == norm(inc.value):
-                    paired = True
-        rep.check(paired, "R16.4", fd.qualname, "total += %s paired with per-character += %s" % (norm(inc.value), norm(inc.value)), fn_where(fd, inc),
-                  "each `score += %s` is matched by `score_by_character_list[n] += %s`" % (norm(inc.value), norm(inc.value)),
-                  "fitch_down_pass adds `%s` to the total but not the same amount to score_by_character_list[n]: the per-character scores no longer add up to the total" % norm(inc.value))
-    # weights index = character index of the zip
-    wtv = norm(incs[0].value) if incs else "wt"
-    wt = [n for n in ast.walk(fd.node) if isinstance(n, ast.Assign) and norm(n.targets[0]) == wtv and isinstance(n.value, ast.Subscript)]
-    enum = [l for l in ast.walk(fd.node) if isinstance(l, ast.For) and isinstance(l.iter, ast.Call) and call_name(l.iter) == "enumerate"]
-    ok = bool(wt) and bool(enum) and norm(wt[0].value.slice) in names_in(enum[0].target) and norm(wt[0].value.value) == "weights"
-    rep.check(ok, "R16.4", fd.qualname, "weight index", fn_where(fd), "the weight applied is weights[<character index of the enumerate>]", "fitch_down_pass indexes weights with something other than the character index")
+    with rep.section("R16.4"):
+        frets = [norm(n.value) for n in walk_no_nested(fd.node) if isinstance(n, ast.Return) and n.value is not None]
+        scv = frets[-1] if frets else "score"
+        incs = [n for n in ast.walk(fd.node) if isinstance(n, ast.AugAssign) and norm(n.target) == scv and isinstance(n.op, ast.Add)]
+        if not incs:
+            raise AnalysisError("R16.4: total-score increment not found")
+        pm = parent_map(fd.node)
+        for inc in incs:
+            blk = pm.get(inc)
+            body = getattr(blk, "body", []) if inc in getattr(blk, "body", []) else getattr(blk, "orelse", [])
+            paired = False
+            for s in body:
+                for x in ast.walk(s):
+                    if isinstance(x, ast.AugAssign) and norm(x.target).startswith("score_by_character_list[") and isinstance(x.op, ast.Add) and norm(x.value) == norm(inc.value):
+                        paired = True
+            rep.check(paired, "R16.4", fd.qualname, "total += %s paired with per-character += %s" % (norm(inc.value), norm(inc.value)), fn_where(fd, inc),
+                      "each `score += %s` is matched by `score_by_character_list[n] += %s`" % (norm(inc.value), norm(inc.value)),
+                      "fitch_down_pass adds `%s` to the total but not the same amount to score_by_character_list[n]: the per-character scores no longer add up to the total" % norm(inc.value))
+        # weights index = character index of the zip
+        wtv = norm(incs[0].value) if incs else "wt"
+        wt = [n for n in ast.walk(fd.node) if isinstance(n, ast.Assign) and norm(n.targets[0]) == wtv and isinstance(n.value, ast.Subscript)]
+        enum = [l for l in ast.walk(fd.node) if isinstance(l, ast.For) and isinstance(l.iter, ast.Call) and call_name(l.iter) == "enumerate"]
+        ok = bool(wt) and bool(enum) and norm(wt[0].value.slice) in names_in(enum[0].target) and norm(wt[0].value.value) == "weights"
+        rep.check(ok, "R16.4", fd.qualname, "weight index", fn_where(fd), "the weight applied is weights[<character index of the enumerate>]", "fitch_down_pass indexes weights with something other than the character index")
